@@ -22,7 +22,7 @@ def _load_registry():
 
 
 _B = int(os.environ.get("VERIF_ITEM_BUDGET", "0") or 0)
-ITEM_BUDGET_S = {"quick": _B or 240, "thorough": _B or 900}    # wall budget of one exploration task (a shard counts separately)
+ITEM_BUDGET_S = {"quick": _B or 480, "thorough": _B or 1200}    # wall budget of one exploration task (a shard counts separately)
 SPLIT_AFTER = 10      # paths an item explores before its open subtrees are handed to other workers
 MAX_SHARDS = 12
 
